@@ -3,7 +3,7 @@ CONSTANTS
   Writers = {1}
   Readers = {}
   Closers = {1, 2}
-  WSizes = {0, 1, 3, 5}
+  WSizes = {0, 3}
   RBufs = {1}
   MSizes = {1}
   Kinds = {"bin"}
@@ -12,6 +12,7 @@ CONSTANTS
   MaxR = 0
   MaxMsg = 0
   PipeWriteLock = TRUE
+  C2ClosesPipe = TRUE
   EnvAtRest = FALSE
   History = TRUE
 SPECIFICATION Spec
